@@ -11,14 +11,38 @@ void nsync_yield_ (void) {
 	rt_yield ();
 }
 
-void *nsync_per_thread_waiter_ (void (*dest) (void *)) {
-	(void) dest;
+/* nsync_per_thread_waiter_ / nsync_set_per_thread_waiter_ are the REAL platform/posix/src/per_thread_waiter.c,
+   compiled with pthread_key_create / pthread_getspecific / pthread_setspecific / sched_yield renamed to the four
+   functions below (build_sim.sh), so that its once-only key creation runs under the scheduler like everything else.
+   One key exists; using a key that was never created is reported (the real call would fail with EINVAL or hit
+   somebody else's key and the waiter would be lost).  */
+NSYNC_CPP_END_
+NSYNC_C_START_
+#define SIM_KEY_MAGIC 0x5157u
+static void (*sim_key_dest) (void *);
+static int sim_key_created;
+int sim_pthread_key_create (pthread_key_t *key, void (*dest) (void *)) {
+	if (sim_key_created) rt_panic ("pthread_key_create called twice: the per-thread waiter key must be created exactly once");
+	sim_key_created = 1;
+	sim_key_dest = dest;
+	*key = (pthread_key_t) SIM_KEY_MAGIC;
+	return (0);
+}
+void *sim_pthread_getspecific (pthread_key_t key) {
+	if (!sim_key_created || key != (pthread_key_t) SIM_KEY_MAGIC) rt_panic ("pthread_getspecific on a key that has not been created");
 	return (rt_get_waiter ());
 }
-
-void nsync_set_per_thread_waiter_ (void *v, void (*dest) (void *)) {
-	rt_set_waiter (v, dest);
+int sim_pthread_setspecific (pthread_key_t key, const void *v) {
+	if (!sim_key_created || key != (pthread_key_t) SIM_KEY_MAGIC) rt_panic ("pthread_setspecific on a key that has not been created");
+	rt_set_waiter ((void *) v, sim_key_dest);
+	return (0);
 }
+int sim_sched_yield (void) {
+	rt_yield ();
+	return (0);
+}
+NSYNC_C_END_
+NSYNC_CPP_START_
 
 void nsync_panic_ (const char *s) {
 	rt_panic (s);
